@@ -23,6 +23,9 @@ Record hist_params := mkHP {
   hp_roots : roots_params;
   hp_radix : radix_params
 }.
+(** the initial guess of the Newton iterations: the no_std one, 2^max_bits (the std build starts from
+    an f64 estimate instead; the result does not depend on the guess: C11_guess_independent) *)
+Definition hist_guess (x : list Z) (n max_bits : Z) : list Z := guess_nostd x n (Z.max 0 max_bits).
 (** what the pow / gcd / roots models call for their big products and quotients *)
 Definition hp_bmul (P : hist_params) : list Z -> list Z -> outcome (list Z) := umul (hp_mul P).
 Definition hp_bdivrem (P : hist_params) : list Z -> list Z -> outcome (list Z * list Z) := udivrem (hp_div P).
@@ -146,9 +149,9 @@ Definition ustep (P : hist_params) (a : list Z) (o : op) : outcome (list Z) :=
   | OMulS S128 s => umul_u128 (hp_mul P) a s
   | OMulS _ s => umul_digit a s
   | OPow e => upow_prim (hp_bmul P) (hp_pow P) a e
-  | OSqrt => usqrt (hp_bdivrem P) (hp_as P) (hp_roots P) guess_nostd a
-  | OCbrt => ucbrt (hp_bmul P) (hp_bdivrem P) (hp_as P) (hp_roots P) guess_nostd a
-  | ONthRoot n => unth_root (hp_bmul P) (hp_bdivrem P) (hp_as P) (hp_pow P) (hp_roots P) guess_nostd a n
+  | OSqrt => usqrt (hp_bdivrem P) (hp_as P) (hp_roots P) hist_guess a
+  | OCbrt => ucbrt (hp_bmul P) (hp_bdivrem P) (hp_as P) (hp_roots P) hist_guess a
+  | ONthRoot n => unth_root (hp_bmul P) (hp_bdivrem P) (hp_as P) (hp_pow P) (hp_roots P) hist_guess a n
   | OGcd (OU y) => ugcd (hp_as P) (hp_gcd P) a (prep_u y)
   | OLcm (OU y) => ulcm (hp_bmul P) (hp_bdivrem P) (hp_as P) (hp_gcd P) a (prep_u y)
   | _ => ill
@@ -181,9 +184,9 @@ Definition istep (P : hist_params) (x : bigint) (o : op) : outcome bigint :=
   | ODivCeil (OI y) => idiv_ceil (hp_div P) x (prep_i y)
   | OMul (OI y) => imul_assign (hp_mul P) x (prep_i y)
   | OPow e => ipow_prim (hp_bmul P) (hp_pow P) x e
-  | OSqrt => isqrt (hp_bdivrem P) (hp_as P) (hp_roots P) guess_nostd x
-  | OCbrt => icbrt (hp_bmul P) (hp_bdivrem P) (hp_as P) (hp_roots P) guess_nostd x
-  | ONthRoot n => inth_root (hp_bmul P) (hp_bdivrem P) (hp_as P) (hp_pow P) (hp_roots P) guess_nostd x n
+  | OSqrt => isqrt (hp_bdivrem P) (hp_as P) (hp_roots P) hist_guess x
+  | OCbrt => icbrt (hp_bmul P) (hp_bdivrem P) (hp_as P) (hp_roots P) hist_guess x
+  | ONthRoot n => inth_root (hp_bmul P) (hp_bdivrem P) (hp_as P) (hp_pow P) (hp_roots P) hist_guess x n
   | OGcd (OI y) => igcd (hp_as P) (hp_gcd P) x (prep_i y)
   | OLcm (OI y) => ilcm (hp_bmul P) (hp_bdivrem P) (hp_as P) (hp_gcd P) x (prep_i y)
   | _ => ill
